@@ -36,11 +36,13 @@ def run_one(args):
         shutil.rmtree(scratch, ignore_errors=True)
 
 def main():
-    args = [a for a in sys.argv[1:] if not a.startswith('--')]
+    argv = sys.argv[1:]
     only = None
-    if '--only' in sys.argv:
-        only = set(sys.argv[sys.argv.index('--only') + 1].split(','))
-        args = [a for a in args if a not in only and a != ','.join(sorted(only))]
+    if '--only' in argv:
+        i = argv.index('--only')
+        only = set(argv[i + 1].split(','))
+        del argv[i:i + 2]
+    args = [a for a in argv if not a.startswith('--')]
     roots = args or [os.path.join(VERIF, 'twins')]
     work = []
     for root in roots:
